@@ -15,6 +15,12 @@ import (
 const (
 	acpiRev1     uint8 = 0
 	acpiRev2Plus uint8 = 2
+
+	// extRSDPLength is the length in bytes of the ACPI 2.0+ RSDP, which
+	// is what its extended checksum covers. unsafe.Sizeof cannot be used
+	// here: it also counts the padding that the compiler appends to
+	// table.ExtRSDPDescriptor to keep its 64-bit field aligned.
+	extRSDPLength uint32 = 36
 )
 
 var (
@@ -233,7 +239,7 @@ checkNextBlock:
 		// System uses ACPI revision > 1 and provides an extended RSDP
 		// which can be accessed at the same place.
 		rsdp2 = (*table.ExtRSDPDescriptor)(unsafe.Pointer(curPtr))
-		if !validTable(curPtr, uint32(unsafe.Sizeof(*rsdp2))) {
+		if !validTable(curPtr, extRSDPLength) {
 			continue
 		}
 
